@@ -189,14 +189,27 @@ func genRegistry(r *gen.R) []custLevel {
 // leaves no trace, so the admission rule afterwards is that of the successful registrations alone.
 func refusedAttempts(r *gen.R, cs []custLevel) (n int, accepted []string) {
 	taken := []string{"warning", "error", "info", "debug", "trace", "panic", "fatal", "ok", "success", "fail", "always", "off"}
+	// the first level that will be registered WITHOUT a treated-as level always gets a refused attempt for its own value
+	// that carries one (whatever the generator draws for the others): what the refused call asked for must not stick
+	firstPlain := -1
 	for i, cl := range cs {
-		if !r.P(60) {
+		if cl.treatAs < 0 && firstPlain < 0 {
+			firstPlain = i
+		}
+	}
+	for i, cl := range cs {
+		forced := i == firstPlain
+		if !r.P(60) && !forced {
 			continue
 		}
 		x := gen.Pick(r, []slog.Level{slog.ErrorLevel, slog.WarnLevel, slog.InfoLevel, slog.DebugLevel, slog.TraceLevel, slog.PanicLevel})
 		var err error
 		var what string
-		switch r.IntN(3) {
+		kind := r.IntN(3)
+		if forced {
+			kind = 0
+		}
+		switch kind {
 		case 0: // the value about to be registered, under a title that is in use
 			t := gen.Pick(r, taken)
 			what = fmt.Sprintf("RegisterLevel(%d,%q,treatAs=%v,errdev)", cl.val, t, x)
